@@ -107,6 +107,10 @@ class Interp:
         self.loop_bound = loop_bound
         self.max_paths = max_paths
 
+    def spawn(self, fn, inputs, call_model):
+        """Interpreter of the same kind for an inlined callee."""
+        return Interp(fn, inputs=inputs, call_model=call_model, on_unknown="both", prog=self.prog, max_paths=2000, loop_bound=self.loop_bound)
+
     # ------------------------------------------------------------------ evaluation
     def _lookup_raw(self, p, key):
         if key in p.env:
@@ -306,6 +310,12 @@ class Interp:
             if op == "+":
                 return v
             return TOP
+        if k == "bin" and "w" in e and not e.get("sg", True) and not e.get("_nowrap"):
+            # unsigned arithmetic wraps around (size_t differences!)
+            e2 = dict(e)
+            e2["_nowrap"] = True
+            v = self.ev(p, e2)
+            return wrap(v, e["w"], False) if isinstance(v, int) else v
         if k == "bin":
             op = e["op"]
             if op == "&&":
@@ -660,7 +670,7 @@ def inline_model(prog, names, fallback=None, depth=0):
     names = set(names)
 
     def model(I, p, node, name, args, callee_val):
-        if name in names and depth < 4:
+        if name in names and depth < 9:
             fns = prog.functions.get(name, [])
             if len(fns) == 1:
                 cf = fns[0]
@@ -675,8 +685,7 @@ def inline_model(prog, names, fallback=None, depth=0):
                     if isinstance(a, Ptr) and getattr(a, "addr", False) and isinstance(a.what, str) and "->" not in a.what and "[" not in a.what \
                             and "." not in a.what:
                         inputs["*" + prm["n"]] = I.read(p, a.what)
-                sub = Interp(cf, inputs=inputs, call_model=inline_model(prog, names, fallback, depth + 1), on_unknown="both", prog=prog,
-                             max_paths=2000)
+                sub = I.spawn(cf, inputs, inline_model(prog, names, fallback, depth + 1))
                 paths = sub.run()
                 rets = set()
                 effects = None
@@ -696,8 +705,10 @@ def inline_model(prog, names, fallback=None, depth=0):
                                 eff[tgt.what] = t[2]
                             else:
                                 return TOP
-                        elif "->" in k or "." in k:
-                            base = k.split("->")[0].split(".")[0]
+                        elif any(isinstance(a, Ptr) and getattr(a, "addr", False) and a.what == k for a in args):
+                            eff[k] = t[2]       # written through a pointer to the caller's variable that was handed further down
+                        elif "->" in k or "." in k or "[" in k:
+                            base = k.split("->")[0].split(".")[0].split("[")[0]
                             if base in pnames or any(l["n"] == base for l in cf.locals):
                                 return TOP      # written through something we cannot name in the caller
                             eff[k] = t[2]
@@ -706,6 +717,10 @@ def inline_model(prog, names, fallback=None, depth=0):
                     elif effects != eff:
                         return TOP
                 if len(rets) == 1:
+                    if len(paths) == 1:
+                        for t in paths[0].trace:
+                            if t[0] == "call":
+                                p.trace.append(t)
                     for k, v in (effects or {}).items():
                         if isinstance(v, Alias):
                             v = TOP
